@@ -9,9 +9,13 @@ def key_fn(case, obs, verdict):
     if f[0] == "hookn":
         return "registry-hook-nested:%s:%s" % (f[1], "product-config")
     if f[0] == "hook":
-        return "registry-hook:%s-def%s:%s:%s" % (f[1], f[2], f[3], verdict.split("(")[0])
+        what = "config-error" if "invalid configuration" in verdict else verdict.split("(")[0]
+        return "registry-hook:%s-def%s:%s:%s" % (f[1], f[2], f[3], what)
     # shape + requested form + which part of the specification fails
-    return "registry:%s-%s-def%s:%s:%s" % (f[1], f[2], f[5], f[7], verdict.split("(")[0])
+    what = verdict.split("(")[0]
+    if "wrongtype" in obs:
+        what = "factory-type"
+    return "registry:%s-%s-def%s:%s:%s" % (f[1], f[2], f[5], f[7], what)
 
 
 def run(ctx):
